@@ -43,6 +43,10 @@ fn main() {
     if args[1] == "selftest-watchdog" {
         std::process::exit(selftest::watchdog());
     }
+    if args[1] == "minimise" {
+        // gsim minimise <replay-file> <budget-s>
+        std::process::exit(check::minimise_file(&args[2], args[3].parse().unwrap_or(40)));
+    }
     if args[1] == "worker" {
         // gsim worker <engine-key> <tag> <seed> <tier> <offset> <stride> <runs> <cap_s> <outfile>
         let Some(e) = check::engine_by_key(&args[2]) else { usage() };
